@@ -42,6 +42,8 @@ var (
 	st   = stats{Classes: map[string]int64{}, Known: map[string]int64{}, KnownDetail: map[string]string{}}
 	fps  = map[uint64]struct{}{}
 	seen = map[string]bool{} // sample classes already sampled
+	// fallback is the first non-trivial case, used as the sample when the check rendered none
+	fallback map[string]any
 
 	knownOnce sync.Once
 	knownSigs map[string]string // signature -> description (open findings only)
@@ -92,6 +94,22 @@ func Case(fp string, nontrivial bool, classes ...string) {
 	mu.Lock()
 	defer mu.Unlock()
 	st.Evaluations++
+	if fallback == nil && fp != "" && (nontrivial || st.Evaluations == 1) {
+		// kept only if the check never renders a sample of its own: an evidence file always shows a generated case
+		txt := fp
+		if len(txt) > 600 {
+			txt = txt[:600] + "..."
+		}
+		var cl []string
+		for _, c := range classes {
+			if c != "" {
+				cl = append(cl, c)
+			}
+		}
+		if nontrivial {
+			fallback = map[string]any{"kind": "case", "case": map[string]any{"fingerprint": txt, "classes": cl, "nontrivial": nontrivial}}
+		}
+	}
 	if nontrivial {
 		st.Nontrivial++
 		h := fnv.New64a()
@@ -239,6 +257,9 @@ func Flush() {
 		}
 	}
 	sort.Strings(st.Notes)
+	if len(st.Samples) == 0 && fallback != nil {
+		st.Samples = append(st.Samples, fallback)
+	}
 	b, err := json.MarshalIndent(st, "", " ")
 	if err != nil {
 		fmt.Fprintln(os.Stderr, "HARNESS-ERROR: stats marshal:", err)
